@@ -218,7 +218,8 @@ func runC12(p *an.Prog, r *an.Run, tier string) {
 				m *ssa.Function
 			}{{mem, m1}, {bad, m2}} {
 				okMiss := unregisteredByNodeMiss(p, dm.d, dm.m)
-				r.Check(okMiss, "unregistered-by-node", driverKind(dm.d)+"."+name, dm.m.Pos(), "ErrUnregisteredNode <= miss in the node space", "ErrUnregisteredNode in %s.%s is not decided by a lookup miss of the node record", driverKind(dm.d), name)
+				skip := successWithoutNodeRead(p, dm.d, dm.m)
+				r.Check(okMiss && len(skip) == 0, "unregistered-by-node", driverKind(dm.d)+"."+name, dm.m.Pos(), "ErrUnregisteredNode <= miss in the node space; no success without the lookup", "ErrUnregisteredNode in %s.%s is not decided by a lookup miss of the node record on every path %s", driverKind(dm.d), name, strings.Join(skip, "; "))
 			}
 		}
 	}
@@ -248,23 +249,8 @@ func runC12(p *an.Prog, r *an.Run, tier string) {
 		r.Check(len(why) == 0, "limit-agree", driverKind(d), m.Pos(), "limit > 0 caps the result, limit 0 means unlimited", "%s", strings.Join(why, "; "))
 	}
 
-	// ---- memory SetNode keeps peers
-	if sn := p.MethodOf(mem, "SetNode"); sn != nil {
-		okKeep := false
-		for _, o := range memoryOps(p, sn) {
-			if o.Kind == opWrite && o.inSpace("node") && o.Val != nil {
-				d := p.Derives(0, o.Val)
-				for _, nd := range d.Nodes {
-					if lk, ok := nd.(*ssa.Lookup); ok && memMapField(lk.X) == "nodes" && stripConv(lk.Index) != nil {
-						if d.HasFieldNamed("memNode", "peers") {
-							okKeep = true
-						}
-					}
-				}
-			}
-		}
-		r.Check(okKeep, "setnode-keeps-peers", "memory.SetNode", sn.Pos(), "a re-registered node keeps the peers tracked for it", "memory.SetNode stores a node entry whose peer set does not come from the existing entry: re-registering (every reconnect) forgets the node's tracked peers, unlike the persistent driver")
-	}
+	// ---- SetNode keeps peers
+	checkSetNodeKeepsPeers(p, r)
 
 	badDec, nDec := freshDecodeViolations(p, func(fn *ssa.Function) bool { return true })
 	r.Floor("decode-sites", nDec, 8)
@@ -460,4 +446,104 @@ func freshDecodeViolations(p *an.Prog, want func(*ssa.Function) bool) ([]string,
 		}
 	}
 	return badDec, nDec
+}
+
+// checkSetNodeKeepsPeers: the pool calls SetNode on every (re)connect; the peers tracked for the node (what billing
+// and the "not already its peer" filter of peer requests rely on) survive it in both drivers.
+func checkSetNodeKeepsPeers(p *an.Prog, r *an.Run) {
+	for _, d := range p.Implementations(p.Iface("pool/store", "Store")) {
+		sn := p.MethodOf(d, "SetNode")
+		kind := driverKind(d)
+		if sn == nil || kind == "" {
+			continue
+		}
+		r.Analysed(an.FuncName(sn))
+		if kind == "memory" {
+			okKeep := false
+			for _, o := range memoryOps(p, sn) {
+				if o.Kind == opWrite && o.inSpace("node") && o.Val != nil {
+					d := p.Derives(0, o.Val)
+					for _, nd := range d.Nodes {
+						if lk, ok := nd.(*ssa.Lookup); ok && memMapField(lk.X) == "nodes" && stripConv(lk.Index) != nil {
+							if d.HasFieldNamed("memNode", "peers") {
+								okKeep = true
+							}
+						}
+					}
+				}
+			}
+			r.Check(okKeep, "setnode-keeps-peers", "memory.SetNode", sn.Pos(), "a re-registered node keeps the peers tracked for it", "memory.SetNode stores a node entry whose peer set does not come from the existing entry: re-registering (every reconnect) forgets the node's tracked peers, unlike the persistent driver")
+			continue
+		}
+		var bad []string
+		for _, o := range driverOps(p, d, sn) {
+			if (o.Kind == opWrite || o.Kind == opDelete) && o.inSpace("peers") {
+				bad = append(bad, kind+".SetNode writes or deletes the node's tracked peer set ("+p.Pos(o.In.Pos())+"): re-registering (every reconnect) forgets the peers, so a host the node already peers with is handed out again and is no longer billed")
+			}
+		}
+		r.Check(len(bad) == 0, "setnode-keeps-peers", kind+".SetNode", sn.Pos(), "a re-registered node keeps the peers tracked for it", "%s", strings.Join(dedup(bad), "; "))
+	}
+}
+
+// successWithoutNodeRead: "unregistered nodes are errors" for every argument value — no return can report success
+// before the node record has been looked up (an early return for a zero amount, an empty list, ... skips the check).
+func successWithoutNodeRead(p *an.Prog, d *types.Named, m *ssa.Function) []string {
+	ops := driverOps(p, d, m)
+	nodeReads := filterOps(ops, func(o storeOp) bool { return o.Kind == opRead && o.inSpace("node") })
+	if len(nodeReads) == 0 {
+		return []string{"(the node space is never read)"}
+	}
+	var bad []string
+	// The persistent driver looks the node record up only when the record it is after (trial balance, peer set, account
+	// link) is missing: finding a record keyed by the node implies the node is registered. So the gate is "some record
+	// of the store has been read"; what must not exist is a success return ahead of every read.
+	readIn := map[*ssa.Function][]ssa.Instruction{}
+	for _, rd := range filterOps(ops, func(o storeOp) bool { return o.Kind == opRead }) {
+		readIn[rd.Fn] = append(readIn[rd.Fn], rd.In)
+	}
+	// the call instructions of the outer method that run a closure containing the read
+	var regionCalls []ssa.Instruction
+	for _, reg := range txnRegions(p, m) {
+		if reg.Closure == nil {
+			continue
+		}
+		for fn := range readIn {
+			if fn == reg.Closure || isNested(fn, reg.Closure) {
+				if in, ok := reg.Call.(ssa.Instruction); ok {
+					regionCalls = append(regionCalls, in)
+				}
+			}
+		}
+	}
+	for _, fn := range an.WithAnon(m) {
+		var gates []ssa.Instruction
+		gates = append(gates, readIn[fn]...)
+		if fn == m {
+			gates = append(gates, regionCalls...)
+		}
+		if len(gates) == 0 {
+			continue
+		}
+		isGate := func(in ssa.Instruction) bool {
+			for _, g := range gates {
+				if g == in {
+					return true
+				}
+			}
+			return false
+		}
+		an.AllInstrs(fn, func(in ssa.Instruction) {
+			ret, ok := in.(*ssa.Return)
+			if !ok || (fn.Recover != nil && ret.Block() == fn.Recover) {
+				return
+			}
+			if cls, _ := returnClass(ret); cls == "nonnil" {
+				return
+			}
+			if w := pathFromBlock(fn, fn.Blocks[0], isGate, func(x ssa.Instruction) bool { return x == in }); w != nil {
+				bad = append(bad, "(the return at "+p.Pos(ret.Pos())+" can report success before anything was looked up in the store)")
+			}
+		})
+	}
+	return dedup(bad)
 }
